@@ -68,8 +68,9 @@ def r2_normaliser_front(ctx):
     if first is not None:
         asg = [s for s in first.body if isinstance(s, ast.Assign) and dotted(s.targets[0]) == t and isinstance(s.value, ast.Call) and call_name(s.value) == "eval" and dotted(s.value.args[0]) == t]
         others = [st for st in call.node.body if isinstance(st, ast.If) and st is not first]
-        ok = bool(asg) and all(first.lineno < o.lineno for o in others)
-    ctx.ob(f"{call.key}:string-first", call.loc(first) if first else call.loc(), "a string annotation is evaluated (in the function's globals) before any other case is considered", ok, "string annotations are not evaluated first: 'int' is treated as an opaque type and never matches")
+        # ... and the evaluated result then goes through the same cases as any other annotation
+        ok = bool(asg) and bool(others) and all(first.lineno < o.lineno for o in others) and not first.orelse
+    ctx.ob(f"{call.key}:string-first", call.loc(first) if first else call.loc(), "a string annotation is evaluated (in the function's globals) before any other case is considered", ok, "string annotations are not evaluated first and then normalised like any other annotation (the special cases hang off the string test's else): 'Any' or 'Annotated[...]' written as a string is not normalised")
     # Annotated unwrapped
     hit = None
     for test, body, node in chain:
@@ -206,7 +207,14 @@ def r4_commutative_combinators(ctx):
             )
 
 
+def r5(ctx):
+    from .c11 import r1_sibling_footprints
+
+    r1_sibling_footprints(ctx)
+
+
 RULES = [
+    ("C15.R5", "P1", r5, "every value of a Literal counts on every code path (sibling footprints)"),
     ("C15.R1", "P1", r1_union_spellings_one_path, "three union spellings, one path"),
     ("C15.R2", "P1", r2_normaliser_front, "strings first, Annotated unwrapped"),
     ("C15.R3", "P1", r3_generic_handlers_use_every_argument, "generic handlers use every argument"),
